@@ -598,7 +598,7 @@ def _run_check(cfg, tier, seed):
             "rule": cfg["rule"],
             "input_distribution": {"streams": streams, "tags": tags},
             "model_impl_disagreements": len(corr_fail),
-            "oracle_failures": len(prop_fail),
+            "oracle_failures": len(unknown_fail),
             "known_finding_cases": {str(k): len(v) for k, v in seen_known.items()},
             "samples": samples,
             "notes": notes[:5],
@@ -613,8 +613,10 @@ def _run_check(cfg, tier, seed):
 
     for l in known_lines:
         log(l)
-    log("%s tier=%s seed=%d: obligations %d/%d, cases %d (distinct non-trivial %d), disagreements %d, oracle failures %d, %.0fs"
-        % (pid, tier, seed, discharged, len(obligations), len(cases), len(nontrivial), len(corr_fail), len(prop_fail), wall))
+    n_known = sum(len(v) for v in seen_known.values())
+    log("%s tier=%s seed=%d: obligations %d/%d, cases %d (distinct non-trivial %d), disagreements %d, oracle failures %d%s, %.0fs"
+        % (pid, tier, seed, discharged, len(obligations), len(cases), len(nontrivial), len(corr_fail), len(unknown_fail),
+           (" (+%d cases of listed known findings)" % n_known) if n_known else "", wall))
     for b in broken:
         log("BROKEN: " + b)
     for rp, suffix in violations:
